@@ -328,17 +328,21 @@ def make_app_classes():
         async def on_connection_error(self, rsocket, exception):
             self.w.rec.log(self.ep, 'cb_conn_error')
 
+        async def _auto_reconnect(self, rsocket, key):
+            # the application asks for a reconnect from inside the notification (the idiom of the repository's examples)
+            limit = self.w.opts.get(key, 0)
+            if self.ep == 'c' and limit and self.w.auto_reconnects < limit:
+                self.w.auto_reconnects += 1
+                self.w.rec.log('c', 'app_reconnect', x=1)
+                await rsocket.reconnect()
+
         async def on_close(self, rsocket, exception=None):
             self.w.rec.log(self.ep, 'cb_close')
-            hook = self.w.opts.get('on_close_hook')
-            if hook:
-                await hook(self.ep)
+            await self._auto_reconnect(rsocket, 'reconnect_on_close')
 
         async def on_keepalive_timeout(self, time_since_last_keepalive, rsocket):
             self.w.rec.log(self.ep, 'cb_keepalive_timeout', x=int(time_since_last_keepalive.total_seconds() * 1000))
-            hook = self.w.opts.get('on_keepalive_timeout_hook')
-            if hook:
-                await hook(self.ep)
+            await self._auto_reconnect(rsocket, 'reconnect_on_timeout')
 
     return RecSubscriber, RecPublisher, RecHandler
 
@@ -375,6 +379,7 @@ class World:
         self.silent = False
         self.last_iid = None
         self.adapter_api = None
+        self.auto_reconnects = 0
         self.loop.set_exception_handler(self._on_loop_exception)
         self._ep_cells = {}
         flags = 0
